@@ -28,6 +28,8 @@ def f64(bits):
 
 
 def f64bits(x):
+    if x != x:
+        return 0x7ff8000000000000        # every NaN is written as the canonical quiet NaN (as the harness does)
     return struct.unpack("<Q", struct.pack("<d", x))[0]
 
 
@@ -36,6 +38,8 @@ def f32(bits):
 
 
 def f32bits(x):
+    if x != x:
+        return 0x7fc00000
     try:
         return struct.unpack("<I", struct.pack("<f", x))[0]
     except OverflowError:
@@ -55,7 +59,7 @@ def ts_valid(tok):
 
 def ts_wire(tok):
     """what a reader is shown: only positive times"""
-    if tok in ("", "T"):
+    if tok == "" or tok[0] == "T":
         return tok
     return tok if ts_valid(tok) else ""
 
@@ -85,8 +89,13 @@ def wire_val(v):
     return "void" if v == "u32s:" else v
 
 
+# environment of the run (fact wireExpNe0): replies show every non-zero ExpiredAt, or only positive ones
+EXP_NE0 = False
+
+
 def show_rec(r):
-    return "|".join([wire_val(r["val"]), ts_wire(r["ca"]), r["cb"], ts_wire(r["ua"]), r["ub"], ts_wire(r["exp"])])
+    exp = r["exp"] if EXP_NE0 else ts_wire(r["exp"])
+    return "|".join([wire_val(r["val"]), ts_wire(r["ca"]), r["cb"], ts_wire(r["ua"]), r["ub"], exp])
 
 
 def parse_rec(tok):
@@ -105,6 +114,7 @@ class Oracle:
         self.kind = kind
         self.st = {}            # key -> rec | UNKNOWN   (absent keys are not in the dict)
         self.complete = True    # the key set of self.st is the whole swamp
+        self.ghost = False      # an empty swamp may nevertheless answer "exists" (listed finding)
 
     # ---- knowledge -------------------------------------------------------------------------
     def known(self, k):
@@ -117,7 +127,10 @@ class Oracle:
         """True / False / UNKNOWN"""
         if any(r is not UNKNOWN for r in self.st.values()):
             return True
-        return False if (self.complete and not self.st) else UNKNOWN
+        return False if (self.complete and not self.st and not self.ghost) else UNKNOWN
+
+    def forget_existence(self):
+        self.ghost = True
 
     def forget(self, keys=None):
         if keys is None:
@@ -135,7 +148,7 @@ class Oracle:
         v = f[0]
         if v == "set":
             return [it.split("|")[0] for it in f[2:]]
-        if v in ("get", "gbk", "shift", "del", "arek"):
+        if v in ("get", "mget", "gbk", "shift", "del", "arek"):
             return f[1:]
         if v in ("iske", "size", "hasval"):
             return [f[1]]
@@ -163,9 +176,9 @@ class Oracle:
                 self._learn_rec(k, parse_rec(tok))
             self.complete = True
         elif v in ("count", "issw") and reply in ("count -", "issw 0"):
-            self.st, self.complete = {}, True
+            self.st, self.complete, self.ghost = {}, True, False
         elif reply in ("err:FailedPrecondition",) and v in ("get", "getall", "gbk", "shift", "iske"):
-            self.st, self.complete = {}, True
+            self.st, self.complete, self.ghost = {}, True, False
 
     def _learn_rec(self, k, rec):
         # the wire form hides non-positive times and cannot tell an empty slice from void: only a
@@ -230,6 +243,12 @@ class Oracle:
             if not ex:
                 return "err:FailedPrecondition", nothing
             return " ".join(["get"] + [show_rec(self.st[k]) if k in self.st else "-" for k in keys]), nothing
+        if v == "mget":
+            # one Get over (this swamp, a swamp never created, this swamp): per-swamp existence in a batch
+            if not ex:
+                return "mget noswamp / noswamp / noswamp", nothing
+            body = " ".join([show_rec(self.st[k]) if k in self.st else "-" for k in keys])
+            return "mget %s / noswamp / %s" % (body, body), nothing
         if v == "getall":
             if not ex:
                 return "err:FailedPrecondition", nothing
@@ -277,6 +296,11 @@ class Oracle:
             return " ".join(["arek"] + ["%s=%d" % (k, 1 if k in self.st else 0) for k in sorted(set(keys))]), nothing
         if v == "issw":
             return "issw %d" % (1 if ex else 0), nothing
+        if v == "compact":
+            # CompactSwamp rewrites the file of an existing swamp; records are untouched
+            if ex is UNKNOWN:
+                return None, None
+            return ("compact ok" if ex else "err:FailedPrecondition"), nothing
         if v == "inc":
             return self._inc(f, now_tok)
         if v == "push":
@@ -371,7 +395,7 @@ class Oracle:
         ok = True
         if cond != "-":
             op, ref = cond.split(":")
-            refv = tof(int(ref, 16)) if isf else int(ref)
+            refv = tof(int(ref, 16)) if isf else wrap(ty, int(ref))   # the handler casts the 32-bit wire field
             ok = {"eq": cur == refv, "ne": cur != refv, "gt": cur > refv, "ge": cur >= refv,
                   "lt": cur < refv, "le": cur <= refv}[op]
         base = old or blank()
@@ -407,7 +431,15 @@ class Oracle:
             self.st, self.complete = {}, True
 
 
-def check_case(ops, impl, skip_lines=()):
+READ_ONLY = ("get", "mget", "getall", "gbk", "count", "iske", "arek", "issw", "size", "hasval", "compact")
+
+
+def check_case(ops, impl, skip_lines=(), stats=None):
+    stats = stats if stats is not None else {}
+    return _check_case(ops, impl, skip_lines, stats)
+
+
+def _check_case(ops, impl, skip_lines, stats):
     """ops/impl: the lines of one case (header first).  Returns the list of
     (index, op, expected, got) where the implementation's reply is not the reference's."""
     hdr = ops[0].split(" ")
@@ -417,6 +449,8 @@ def check_case(ops, impl, skip_lines=()):
             kind = a[5:]
     o = Oracle(kind)
     bad = []
+    opno = 0
+    stats["lines"] = stats.get("lines", 0) + max(0, min(len(ops), len(impl)) - 1)
     for i in range(1, min(len(ops), len(impl))):
         f = ops[i].split(" ")
         got = impl[i]
@@ -434,18 +468,28 @@ def check_case(ops, impl, skip_lines=()):
             if i in skip_lines:
                 o.forget(None)     # a listed finding changed what the reload shows
             continue
+        if f[0] != "compact":
+            opno += 1             # server stamps are written T<number of the request that took them>
         if i in skip_lines:
-            o.forget(o.keys_of(f) or None)
+            if f[0] in READ_ONLY:
+                o.forget_existence()    # a read cannot change records; it may have summoned the swamp
+            else:
+                o.forget(o.keys_of(f) or None)
             o.learn(f, got)
             continue
-        exp, commit = o.expect(f)
+        exp, commit = o.expect(f, "T%d" % opno)
         if exp is None:
+            stats["unknown"] = stats.get("unknown", 0) + 1
             o.forget(o.keys_of(f) if f[0] in ("set", "inc", "push", "u32del", "shift", "del") else [])
             o.learn(f, got)
             continue
+        stats["evaluated"] = stats.get("evaluated", 0) + 1
         if exp != got:
             bad.append((i, ops[i], exp, got))
-            o.forget(o.keys_of(f) or None)
+            if f[0] in READ_ONLY:
+                o.forget_existence()
+            else:
+                o.forget(o.keys_of(f) or None)
             o.learn(f, got)
             continue
         commit()
